@@ -826,6 +826,17 @@ def gen_basic(repo):
         "__next__": ("self", "return next(self._iterator())"),
         "n": ("self", "return self._n"), "r": ("self", "return self._r"), "max_n": ("self", "return self._max_n"),
     }
+    # no further member (a __getstate__, __copy__, __getattr__, a class-level attribute ...) changes what an object is between two requests
+    members = [m.name if isinstance(m, ast.FunctionDef) else ast.unparse(m)[:40] for m in _strip_doc(base[0].body)]
+    if sorted(members) != sorted(["__init__", "__init_subclass__", "__iter__", "__next__", "_iterator", "is_exhausted", "uses_storage_type", "n", "r", "max_n", "is_running", "finalize"]):
+        raise Untranslatable("CheckpointSchedule has members the model does not know: %s" % members)
+    for fn in ("basic_schedules.py", "twolevel_binomial.py", "multistage.py", "mixed.py", "hrevolve.py"):
+        for c in ast.walk(ast.parse(open(os.path.join(repo, "checkpoint_schedules", fn)).read())):
+            if isinstance(c, ast.ClassDef) and any("Schedule" in ast.unparse(b) or ast.unparse(b) == "RevolveCheckpointSchedule" for b in c.bases):
+                extra = [m.name if isinstance(m, ast.FunctionDef) else ast.unparse(m)[:40] for m in _strip_doc(c.body)
+                         if not (isinstance(m, ast.FunctionDef) and m.name in ("__init__", "_iterator", "is_exhausted", "uses_storage_type"))]
+                if extra:
+                    raise Untranslatable("%s has members besides __init__, _iterator, is_exhausted, uses_storage_type (a class-level attribute is shared by all its objects): %s" % (c.name, extra))
     for name, (args, body) in EXPECT.items():
         f = bm.get(name)
         if f is None:
@@ -994,6 +1005,17 @@ def _check_protocol(repo):
         "__next__": ("self", "return next(self._iterator())"),
         "n": ("self", "return self._n"), "r": ("self", "return self._r"), "max_n": ("self", "return self._max_n"),
     }
+    # no further member (a __getstate__, __copy__, __getattr__, a class-level attribute ...) changes what an object is between two requests
+    members = [m.name if isinstance(m, ast.FunctionDef) else ast.unparse(m)[:40] for m in _strip_doc(base[0].body)]
+    if sorted(members) != sorted(["__init__", "__init_subclass__", "__iter__", "__next__", "_iterator", "is_exhausted", "uses_storage_type", "n", "r", "max_n", "is_running", "finalize"]):
+        raise Untranslatable("CheckpointSchedule has members the model does not know: %s" % members)
+    for fn in ("basic_schedules.py", "twolevel_binomial.py", "multistage.py", "mixed.py", "hrevolve.py"):
+        for c in ast.walk(ast.parse(open(os.path.join(repo, "checkpoint_schedules", fn)).read())):
+            if isinstance(c, ast.ClassDef) and any("Schedule" in ast.unparse(b) or ast.unparse(b) == "RevolveCheckpointSchedule" for b in c.bases):
+                extra = [m.name if isinstance(m, ast.FunctionDef) else ast.unparse(m)[:40] for m in _strip_doc(c.body)
+                         if not (isinstance(m, ast.FunctionDef) and m.name in ("__init__", "_iterator", "is_exhausted", "uses_storage_type"))]
+                if extra:
+                    raise Untranslatable("%s has members besides __init__, _iterator, is_exhausted, uses_storage_type (a class-level attribute is shared by all its objects): %s" % (c.name, extra))
     for name, (args, body) in EXPECT.items():
         f = bm.get(name)
         if f is None:
